@@ -1,6 +1,7 @@
 package props
 
 import (
+	"runtime"
 	"crypto/sha1"
 	"encoding/json"
 	"fmt"
@@ -141,6 +142,9 @@ func (s *Stats) write() {
 		s.NonTrivial = append(s.NonTrivial, h)
 	}
 	sort.Slice(s.NonTrivial, func(i, j int) bool { return s.NonTrivial[i] < s.NonTrivial[j] })
+	if runtime.GOARCH != "amd64" {
+		s.Classes["goarch="+runtime.GOARCH] = int64(s.Evaluations)
+	}
 	b, _ := json.Marshal(s)
 	tmp := path + ".tmp"
 	if err := os.WriteFile(tmp, b, 0o644); err == nil {
@@ -159,6 +163,9 @@ func replayDir(prop string) string {
 }
 
 func writeReplay(prop string, c *Case) string {
+	if runtime.GOARCH != "amd64" {
+		c.Arch = runtime.GOARCH // information: the violation was seen in a build for this platform
+	}
 	b, _ := json.MarshalIndent(c, "", " ")
 	sum := sha1.Sum(b)
 	dir := replayDir(prop)
